@@ -351,6 +351,13 @@ func (g *FuncGen) evalField(n *Node, env *Env) (Val, error) {
 		if !ok {
 			return Val{}, fmt.Errorf("%s: field of pointer to non-struct", n)
 		}
+		if strings.HasPrefix(n.Name, "$") {
+			gm, gt, err := g.ghostMap(u.Elem(), n.Name)
+			if err != nil {
+				return Val{}, err
+			}
+			return Val{fmt.Sprintf("(select %s %s)", g.heapGet(env.heap, gm.Name, gm.Sort), x.Term), gt}, nil
+		}
 		i := fieldIndex(st, n.Name)
 		if i < 0 {
 			return Val{}, fmt.Errorf("%s: type %s has no field %s (contract out of date)", n, u.Elem(), n.Name)
@@ -831,4 +838,27 @@ func (g *FuncGen) applyPureContract(c *Contract, args []Val, env *Env) (Val, err
 		g.lemmaPres = append(g.lemmaPres, pre)
 	}
 	return Val{app, rt}, nil
+}
+
+
+// ghostMap: heap map of a declared ghost field of struct type t.
+func (g *FuncGen) ghostMap(t types.Type, name string) (MapRef, types.Type, error) {
+	for _, gf := range g.eng.cs.Ghosts {
+		if gf.Name != name {
+			continue
+		}
+		st, err := g.eng.resolveType(gf.TypeStr, g.eng.typesPkg(gf.PkgPath))
+		if err != nil {
+			return MapRef{}, nil, err
+		}
+		if !types.Identical(st, t) {
+			continue
+		}
+		ft, err := g.eng.resolveType(gf.Type, g.eng.typesPkg(gf.PkgPath))
+		if err != nil {
+			return MapRef{}, nil, err
+		}
+		return g.mr("G:"+typeName(t)+"."+name, "(Array Int "+g.w.SortOf(ft)+")"), ft, nil
+	}
+	return MapRef{}, nil, fmt.Errorf("no ghost field %s declared for %s", name, typeName(t))
 }
